@@ -3,6 +3,12 @@
   transitions reports the footer rule evaluated on the proleptic Gregorian calendar at t itself
   (arbitrarily far into the future), although the code only tabulates 402 years and shifts by
   multiples of 400 years.
+
+  The first wording of this property (kept below as `lookup_follows_rule_first_wording`) was FALSE
+  and nearly vacuous; see `first_wording_false` and `extendedBy_degenerate`.  The statement now
+  takes the generated part of the table column-wise (`ExtendedKeys`) and assumes `Regular`; that
+  clause 1 of `Regular` cannot be dropped even when `y0` is the civil year of the last recorded
+  transition is `regular_needed` (a table on which `BreakTime` disagrees with the rule).
 -/
 import Cctz.Model.Tz
 import Cctz.Spec.PosixRule
@@ -10,6 +16,8 @@ import Cctz.Spec.TableSem
 import Cctz.Properties.C01
 import Cctz.Properties.C01Rule
 import Cctz.Proofs.RuleGlue
+import Cctz.Proofs.RgExample
+import Cctz.Proofs.RgWitness
 
 namespace Cctz.C01Glue
 open Cctz Cctz.Tz Cctz.Spec
@@ -36,47 +44,12 @@ def RuleKindAt (r : Rule) (y0 : Int) (lastRec t : Int) (k : Option Bool) : Prop 
   | some kind => ∃ y a, y0 ≤ y ∧ IsRuleInstant r y a kind ∧ lastRec < a ∧ a ≤ t ∧
       ∀ y' b kind', y0 ≤ y' → IsRuleInstant r y' b kind' → b ≤ t → b ≤ a ∧ (b = a → kind' = kind)
 
-/-- the shape `ExtendTransitions` gives the table (theorem `C01Rule.extendLoop_trans`): the
-recorded entries followed by the year pairs of the years y0 … y0+401 -/
-def ExtendedBy (z : Zone) (r : Rule) (rec : List Transition) (y0 : Int) (dstTi stdTi : Nat) : Prop :=
-  rec ≠ [] ∧ z.extended = true ∧
-  z.transitions.toList = rec ++ (List.range 402).flatMap (fun (k : Nat) =>
-    C01Rule.yearPair { dstStart := ⟨some r.sd, some r.st⟩, dstEnd := ⟨some r.ed, some r.et⟩ } dstTi stdTi
-      ((rec.getLast?.map (·.unixTime)).getD 0) r.stdOff r.dstOff (y0 + (k : Int))) ∧
-  (typ z dstTi).utcOffset = r.dstOff ∧ (typ z dstTi).isDst = true ∧
-  (typ z stdTi).utcOffset = r.stdOff ∧ (typ z stdTi).isDst = false ∧
-  DateInGrammar r.sd ∧ DateInGrammar r.ed
-
-/-- lookup(t) beyond the recorded transitions follows the rule at t itself, for every int64 t and
-every hint: the type of the last recorded transition until the first rule instant after it, then
-DST exactly when the latest rule instant at or before t is a start -/
-def lookup_follows_rule_statement : Prop :=
-  ∀ (z : Zone) (r : Rule) (rec : List Transition) (y0 : Int) (dstTi stdTi : Nat) (h : Nat) (t : Int),
-    TableWF z → CivilCols z → ExtendedBy z r rec y0 dstTi stdTi →
-    (rec.getLast?.map (·.unixTime)).getD 0 ≤ t →
-    ∃ k, RuleKindAt r y0 ((rec.getLast?.map (·.unixTime)).getD 0) t k ∧
-      let a := (breakTime z h t).val.1
-      match k with
-      | none => a.offset = (typ z ((rec.getLast?.map (·.typeIndex)).getD 0)).utcOffset ∧
-                a.isDst = (typ z ((rec.getLast?.map (·.typeIndex)).getD 0)).isDst
-      | some true => a.offset = r.dstOff ∧ a.isDst = true
-      | some false => a.offset = r.stdOff ∧ a.isDst = false
-
-/-! ## what can be proved
-
-The statement above is FALSE (`lookup_follows_rule_counterexample`: nothing ties `y0` to the last
-recorded transition, so the 402 tabulated years can all lie before it) and, where it is not false,
-nearly VACUOUS (`extendedBy_degenerate`: `ExtendedBy` makes the generated entries literal
-`yearPair` values, whose civil columns are the 1970-01-01 defaults, so `CivilCols` forces every
-generated entry of a type to the one instant `-offset`: at most two generated entries).  Proved
-instead: the same conclusion for tables whose generated part agrees with the year pairs in the two
-columns `ExtendTransitions` writes (`ExtendedKeys`), under the assumption `Rg.Regular`. -/
-
 /-- the two columns `ExtendTransitions` writes -/
 def cols (x : Transition) : Int × Nat := (x.unixTime, x.typeIndex)
 
-/-- `ExtendedBy` with the generated part compared in the time and type columns only (`Load` fills
-the civil columns of all entries after `ExtendTransitions`) -/
+/-- the shape `ExtendTransitions` gives the table (theorem `C01Rule.extendLoop_trans`): the
+recorded entries followed by entries that agree, in the time and type columns, with the year pairs
+of the years y0 … y0+401 (`Load` fills the civil columns of all entries afterwards) -/
 def ExtendedKeys (z : Zone) (r : Rule) (rec : List Transition) (y0 : Int) (dstTi stdTi : Nat) : Prop :=
   rec ≠ [] ∧ z.extended = true ∧
   (∃ gen : List Transition, z.transitions.toList = rec ++ gen ∧
@@ -87,13 +60,87 @@ def ExtendedKeys (z : Zone) (r : Rule) (rec : List Transition) (y0 : Int) (dstTi
   (typ z stdTi).utcOffset = r.stdOff ∧ (typ z stdTi).isDst = false ∧
   DateInGrammar r.sd ∧ DateInGrammar r.ed
 
-/-- lookup(t) beyond the recorded transitions follows the rule at t itself, under the regularity
-assumption `Rg.Regular` (Cctz/Proofs/RuleGlue.lean): at least one rule instant of year y0+1 and
-every rule instant of the years y0+2 … y0+401 is later than the last recorded transition -/
-def lookup_follows_rule_partial_statement : Prop :=
+/-- Regularity of the recorded part (last recorded transition at `L`) against the rule tabulated
+from year `y0` on:
+ 1. at least one rule instant of year `y0+1` is later than `L`.  Otherwise the 400-year window
+    `[last - k400, last)` into which `BreakTime` maps later instants starts inside the recorded
+    part, and the recorded types, not the rule, answer for the instants between the later rule
+    instant of year `y0+401` and `L + k400` (`regular_needed`).
+ 2. every rule instant of the years `y0+2 … y0+401` is later than `L`.  Otherwise the copy, 400
+    years on, of a dropped instant lies inside the tabulated range without being in the table.
+ With `y0` the civil year of `L` (as `ExtendTransitions` takes it) clause 2 always holds for
+ offsets and rule times within the grammar, and clause 1 holds unless both rule instants of year
+ `y0+1` fall, by negative rule times, into the last days of civil year `y0` before `L`
+ (`regular_of_civilYear`). -/
+def Regular (r : Rule) (y0 L : Int) : Prop :=
+  (∃ a kind, IsRuleInstant r (y0 + 1) a kind ∧ L < a) ∧
+  (∀ y a kind, y0 + 2 ≤ y → y ≤ y0 + 401 → IsRuleInstant r y a kind → L < a)
+
+/-- lookup(t) beyond the recorded transitions follows the rule at t itself, for every int64 t and
+every hint: the type of the last recorded transition until the first rule instant after it, then
+DST exactly when the latest rule instant at or before t is a start -/
+def lookup_follows_rule_statement : Prop :=
   ∀ (z : Zone) (r : Rule) (rec : List Transition) (y0 : Int) (dstTi stdTi : Nat) (h : Nat) (t : Int),
     TableWF z → CivilCols z → ExtendedKeys z r rec y0 dstTi stdTi →
-    Rg.Regular r.sd r.st r.ed r.et r.stdOff r.dstOff y0 ((rec.getLast?.map (·.unixTime)).getD 0) →
+    Regular r y0 ((rec.getLast?.map (·.unixTime)).getD 0) →
+    (rec.getLast?.map (·.unixTime)).getD 0 ≤ t →
+    ∃ k, RuleKindAt r y0 ((rec.getLast?.map (·.unixTime)).getD 0) t k ∧
+      let a := (breakTime z h t).val.1
+      match k with
+      | none => a.offset = (typ z ((rec.getLast?.map (·.typeIndex)).getD 0)).utcOffset ∧
+                a.isDst = (typ z ((rec.getLast?.map (·.typeIndex)).getD 0)).isDst
+      | some true => a.offset = r.dstOff ∧ a.isDst = true
+      | some false => a.offset = r.stdOff ∧ a.isDst = false
+
+/-- `Regular` in the terms of `ExtendTransitions`: the last recorded transition lies, in the local
+time `offL` of its type, before the end of civil year `y0`; the rule times net of the offset
+differences are less than 365 days negative and at least one of them is not negative -/
+def regular_of_civilYear_statement : Prop :=
+  ∀ (r : Rule) (y0 L offL : Int), DateInGrammar r.sd → DateInGrammar r.ed →
+    L + offL < dayNum (y0 + 1) 1 1 * 86400 →
+    -31536000 ≤ r.st - r.stdOff + offL → -31536000 ≤ r.et - r.dstOff + offL →
+    (0 ≤ r.st - r.stdOff + offL ∨ 0 ≤ r.et - r.dstOff + offL) →
+    Regular r y0 L
+
+/-- clause 1 of `Regular` cannot be dropped: there is a table with all the other hypotheses, `y0`
+the civil year of its last recorded transition, rule times within the ±167 h of the grammar and
+clause 2 of `Regular`, and an instant at which the answer of `BreakTime` is not the rule's -/
+def regular_needed_statement : Prop :=
+  ∃ (z : Zone) (r : Rule) (rec : List Transition) (y0 : Int) (dstTi stdTi : Nat) (h : Nat) (t : Int),
+    TableWF z ∧ CivilCols z ∧ ExtendedKeys z r rec y0 dstTi stdTi ∧
+    dayNum y0 1 1 * 86400 ≤ (rec.getLast?.map (·.unixTime)).getD 0 +
+      (typ z ((rec.getLast?.map (·.typeIndex)).getD 0)).utcOffset ∧
+    (rec.getLast?.map (·.unixTime)).getD 0 +
+      (typ z ((rec.getLast?.map (·.typeIndex)).getD 0)).utcOffset < dayNum (y0 + 1) 1 1 * 86400 ∧
+    -601200 ≤ r.st ∧ r.st ≤ 601200 ∧ -601200 ≤ r.et ∧ r.et ≤ 601200 ∧
+    (∀ y a kind, y0 + 2 ≤ y → y ≤ y0 + 401 → IsRuleInstant r y a kind →
+      (rec.getLast?.map (·.unixTime)).getD 0 < a) ∧
+    (rec.getLast?.map (·.unixTime)).getD 0 ≤ t ∧
+    ¬ ∃ k, RuleKindAt r y0 ((rec.getLast?.map (·.unixTime)).getD 0) t k ∧
+      let a := (breakTime z h t).val.1
+      match k with
+      | none => a.offset = (typ z ((rec.getLast?.map (·.typeIndex)).getD 0)).utcOffset ∧
+                a.isDst = (typ z ((rec.getLast?.map (·.typeIndex)).getD 0)).isDst
+      | some true => a.offset = r.dstOff ∧ a.isDst = true
+      | some false => a.offset = r.stdOff ∧ a.isDst = false
+
+/-! ## the first wording (false, and vacuous on real tables) -/
+
+/-- first wording of the table shape: the generated entries are literally the `yearPair` values,
+civil columns included (which are the 1970-01-01 defaults there) -/
+def ExtendedBy (z : Zone) (r : Rule) (rec : List Transition) (y0 : Int) (dstTi stdTi : Nat) : Prop :=
+  rec ≠ [] ∧ z.extended = true ∧
+  z.transitions.toList = rec ++ (List.range 402).flatMap (fun (k : Nat) =>
+    C01Rule.yearPair { dstStart := ⟨some r.sd, some r.st⟩, dstEnd := ⟨some r.ed, some r.et⟩ } dstTi stdTi
+      ((rec.getLast?.map (·.unixTime)).getD 0) r.stdOff r.dstOff (y0 + (k : Int))) ∧
+  (typ z dstTi).utcOffset = r.dstOff ∧ (typ z dstTi).isDst = true ∧
+  (typ z stdTi).utcOffset = r.stdOff ∧ (typ z stdTi).isDst = false ∧
+  DateInGrammar r.sd ∧ DateInGrammar r.ed
+
+/-- first wording of the property: no regularity assumption, literal table shape -/
+def lookup_follows_rule_first_wording : Prop :=
+  ∀ (z : Zone) (r : Rule) (rec : List Transition) (y0 : Int) (dstTi stdTi : Nat) (h : Nat) (t : Int),
+    TableWF z → CivilCols z → ExtendedBy z r rec y0 dstTi stdTi →
     (rec.getLast?.map (·.unixTime)).getD 0 ≤ t →
     ∃ k, RuleKindAt r y0 ((rec.getLast?.map (·.unixTime)).getD 0) t k ∧
       let a := (breakTime z h t).val.1
@@ -108,14 +155,16 @@ def extendedBy_keys_statement : Prop :=
   ∀ (z : Zone) (r : Rule) (rec : List Transition) (y0 : Int) (dstTi stdTi : Nat),
     ExtendedBy z r rec y0 dstTi stdTi → ExtendedKeys z r rec y0 dstTi stdTi
 
-/-- with the literal shape and `CivilCols`, two generated entries of the same type coincide -/
+/-- with the literal shape and `CivilCols`, two generated entries of the same type coincide: the
+first wording speaks about tables with at most two generated entries only -/
 def extendedBy_degenerate_statement : Prop :=
   ∀ (z : Zone) (r : Rule) (rec : List Transition) (y0 : Int) (dstTi stdTi : Nat),
     TableWF z → CivilCols z → ExtendedBy z r rec y0 dstTi stdTi →
     ∀ x y, x ∈ z.transitions.toList.drop rec.length → y ∈ z.transitions.toList.drop rec.length →
       x.typeIndex = y.typeIndex → x = y
 
-/-! ## proofs (helper lemmas: Cctz/Proofs/RuleGlue.lean, RgOrder.lean, RgTable.lean) -/
+/-! ## proofs (helper lemmas: Cctz/Proofs/RuleGlue.lean, RgOrder.lean, RgTable.lean, RgZone.lean,
+RgCounter.lean, RgExample.lean, RgWitness.lean) -/
 
 theorem isRuleInstant_iff (r : Rule) (gs : DateInGrammar r.sd) (ge : DateInGrammar r.ed)
     (y a : Int) (kind : Bool) :
@@ -133,6 +182,30 @@ theorem ruleKindAt_iff (r : Rule) (gs : DateInGrammar r.sd) (ge : DateInGrammar 
   unfold RuleKindAt Rg.KindAt
   cases k <;> simp only [isRuleInstant_iff r gs ge]
 
+/-- `Regular` over the raw rule fields -/
+theorem regular_iff (r : Rule) (y0 L : Int) :
+    Regular r y0 L ↔ Rg.Regular r.sd r.st r.ed r.et r.stdOff r.dstOff y0 L := by
+  unfold Regular Rg.Regular IsRuleInstant
+  constructor
+  · rintro ⟨⟨a, kind, hk, hL⟩, h2⟩
+    refine ⟨⟨a, ?_, hL⟩, ?_⟩
+    · rcases hk with hk | hk
+      · exact Or.inl hk.2
+      · exact Or.inr hk.2
+    · intro y a h1 h1' ha
+      rcases ha with ha | ha
+      · exact h2 y a true h1 h1' (Or.inl ⟨rfl, ha⟩)
+      · exact h2 y a false h1 h1' (Or.inr ⟨rfl, ha⟩)
+  · rintro ⟨⟨a, ha, hL⟩, h2⟩
+    refine ⟨?_, ?_⟩
+    · rcases ha with ha | ha
+      · exact ⟨a, true, Or.inl ⟨rfl, ha⟩, hL⟩
+      · exact ⟨a, false, Or.inr ⟨rfl, ha⟩, hL⟩
+    · intro y a kind h1 h1' hk
+      rcases hk with hk | hk
+      · exact h2 y a h1 h1' (Or.inl hk.2)
+      · exact h2 y a h1 h1' (Or.inr hk.2)
+
 /-- the year pairs over the total instant functions -/
 theorem yearPairs_eq (r : Rule) (gs : DateInGrammar r.sd) (ge : DateInGrammar r.ed)
     (rec : List Transition) (y0 : Int) (dstTi stdTi : Nat) :
@@ -148,22 +221,85 @@ theorem yearPairs_eq (r : Rule) (gs : DateInGrammar r.sd) (ge : DateInGrammar r.
   rw [Rg.ruleInstant_some _ _ _ _ gs, Rg.ruleInstant_some _ _ _ _ ge]
   rfl
 
-theorem extendedBy_keys : extendedBy_keys_statement := by
-  intro z r rec y0 dstTi stdTi ⟨h1, h2, h3, h4⟩
-  exact ⟨h1, h2, ⟨_, h3, rfl⟩, h4⟩
-
-theorem lookup_follows_rule_partial : lookup_follows_rule_partial_statement := by
+theorem lookup_follows_rule : lookup_follows_rule_statement := by
   intro z r rec y0 dstTi stdTi h t wf cc hx hreg ht
   obtain ⟨hrec, hext, ⟨gen, hl, hkeys⟩, hdo, hdd, hso, hsd, gs, ge⟩ := hx
   rw [yearPairs_eq r gs ge] at hkeys
   obtain ⟨k, hk, ho, hd⟩ := Rg.glue_core z rec _ _ (Rg.inst_per r.sd r.st r.stdOff gs)
     (Rg.inst_per r.ed r.et r.dstOff ge) y0 dstTi stdTi h t wf cc hrec hext gen hl hkeys
-    (Rg.reg_of_regular gs ge hreg) ht
+    (Rg.reg_of_regular gs ge ((regular_iff r y0 _).1 hreg)) ht
   refine ⟨k, (ruleKindAt_iff r gs ge _ _ _ _).2 hk, ?_⟩
   match k with
   | none => exact ⟨ho, hd⟩
   | some true => exact ⟨by rw [ho]; exact hdo, by rw [hd]; exact hdd⟩
   | some false => exact ⟨by rw [ho]; exact hso, by rw [hd]; exact hsd⟩
+
+theorem regular_of_civilYear : regular_of_civilYear_statement := by
+  intro r y0 L offL gs ge hy hs he h1
+  exact (regular_iff r y0 L).2 (Rg.regular_of_civilYear offL gs ge hy hs he h1)
+
+/-! ### the hypotheses are satisfiable: New York after the 2007 transitions -/
+
+/-- `EST5EDT,M3.2.0/2,M11.1.0/2` -/
+def nyRule : Rule := ⟨Rg.nySd, 7200, Rg.nyEd, 7200, -18000, -14400⟩
+
+theorem ny_extendedKeys : ExtendedKeys Rg.nyZone nyRule (Rg.fill Rg.nyTypes 0 Rg.nyRec) 2007 2 1 := by
+  refine ⟨by decide, rfl, ?_, Rg.off_mkZone Rg.nyTypes 0 _ 2, Rg.dst_mkZone Rg.nyTypes 0 _ 2 (by decide),
+    Rg.off_mkZone Rg.nyTypes 0 _ 1, Rg.dst_mkZone Rg.nyTypes 0 _ 1 (by decide), Rg.nySd_g, Rg.nyEd_g⟩
+  rw [yearPairs_eq nyRule Rg.nySd_g Rg.nyEd_g]
+  exact Rg.keys_mkZone_ext Rg.nyTypes 0 Rg.nyRec Rg.nyS Rg.nyE 2 1 1194156000 2007
+
+theorem ny_regular : Regular nyRule 2007 1194156000 :=
+  regular_of_civilYear nyRule 2007 1194156000 (-18000) Rg.nySd_g Rg.nyEd_g (by decide) (by decide)
+    (by decide) (Or.inl (by decide))
+
+/-- the hypotheses of `lookup_follows_rule` hold for the table made of the two 2007 transitions of
+New York followed by the 804 rule instants of 2008 … 2408 (y0 = 2007, L = 2007-11-04 06:00:00 UTC) -/
+example : TableWF Rg.nyZone ∧ CivilCols Rg.nyZone ∧
+    ExtendedKeys Rg.nyZone nyRule (Rg.fill Rg.nyTypes 0 Rg.nyRec) 2007 2 1 ∧
+    Regular nyRule 2007 (((Rg.fill Rg.nyTypes 0 Rg.nyRec).getLast?.map (·.unixTime)).getD 0) ∧
+    ((Rg.fill Rg.nyTypes 0 Rg.nyRec).getLast?.map (·.unixTime)).getD 0 ≤ 4102444800 :=
+  ⟨Rg.ny_wf, Rg.ny_cols, ny_extendedKeys, ny_regular, by decide⟩
+
+/-! ### clause 1 of `Regular` is needed -/
+
+/-- the POSIX string `XST0XDT,J1/` `-48,J2/` `-30` (start: January 1st minus 48 h, end: January 2nd minus 30 h) -/
+def wRule : Rule := ⟨Rg.wSd, -172800, Rg.wEd, -108000, 0, 3600⟩
+
+theorem w_extendedKeys : ExtendedKeys Rg.wZone wRule (Rg.fill Rg.wTypes 0 Rg.wRec) 2007 2 1 := by
+  refine ⟨by decide, rfl, ?_, Rg.off_mkZone Rg.wTypes 0 _ 2, Rg.dst_mkZone Rg.wTypes 0 _ 2 (by decide),
+    Rg.off_mkZone Rg.wTypes 0 _ 1, Rg.dst_mkZone Rg.wTypes 0 _ 1 (by decide), Rg.wSd_g, Rg.wEd_g⟩
+  rw [yearPairs_eq wRule Rg.wSd_g Rg.wEd_g]
+  exact Rg.w_keys
+
+theorem regular_needed : regular_needed_statement := by
+  refine ⟨Rg.wZone, wRule, Rg.fill Rg.wTypes 0 Rg.wRec, 2007, 2, 1, 0, 13821901200,
+    Rg.w_wf, Rg.w_cols, w_extendedKeys, ?_, ?_, by decide, by decide, by decide, by decide, ?_,
+    by decide, ?_⟩
+  · show dayNum 2007 1 1 * 86400 ≤ 1199131200 + (typ Rg.wZone 1).utcOffset
+    rw [Rg.w_off1]; decide
+  · show 1199131200 + (typ Rg.wZone 1).utcOffset < dayNum (2007 + 1) 1 1 * 86400
+    rw [Rg.w_off1]; decide
+  · have h2 := Rg.regular2_of_civilYear (sd := Rg.wSd) (st := -172800) (ed := Rg.wEd) (et := -108000)
+      (stdOff := 0) (dstOff := 3600) (y0 := 2007) (L := 1199131200) 0 Rg.wSd_g Rg.wEd_g
+      (by decide) (by decide) (by decide)
+    intro y a kind h1 h1' hk
+    rcases hk with hk | hk
+    · exact h2 y a h1 h1' (Or.inl hk.2)
+    · exact h2 y a h1 h1' (Or.inr hk.2)
+  · rintro ⟨k, hk, ha⟩
+    have hk' := (ruleKindAt_iff wRule Rg.wSd_g Rg.wEd_g 2007 _ _ k).1 hk
+    have := Rg.w_verdict k hk'
+    subst this
+    have h1 : (breakTime Rg.wZone 0 13821901200).val.1.offset = 0 := ha.1
+    rw [Rg.w_answer] at h1
+    exact absurd h1 (by decide)
+
+/-! ### the first wording -/
+
+theorem extendedBy_keys : extendedBy_keys_statement := by
+  intro z r rec y0 dstTi stdTi ⟨h1, h2, h3, h4⟩
+  exact ⟨h1, h2, ⟨_, h3, rfl⟩, h4⟩
 
 theorem extendedBy_degenerate : extendedBy_degenerate_statement := by
   intro z r rec y0 dstTi stdTi wf cc hx x y hxm hym hty
@@ -193,12 +329,10 @@ theorem extendedBy_degenerate : extendedBy_degenerate_statement := by
   have : x.unixTime = y.unixTime := by omega
   rw [this, hty]
 
-/-! ## the full statement is false -/
-
 /-- the rule of the counterexample: `N0/0,N100/0`, standard offset 0, daylight offset 3600 -/
 def ceRule : Rule := ⟨Rg.ce1Start, 0, Rg.ce1End, 0, 0, 3600⟩
 
-/-- the hypotheses of the full statement hold for the one-entry table `Rg.ce1` with the years
+/-- the hypotheses of the first wording hold for the one-entry table `Rg.ce1` with the years
 1000 … 1401 tabulated (nothing is generated) -/
 theorem ce_extendedBy : ExtendedBy Rg.ce1 ceRule (Rg.fill Rg.ce1Types 0 [(0, 1)]) 1000 2 1 := by
   refine ⟨by decide, rfl, ?_, rfl, rfl, rfl, rfl, ?_, ?_⟩
@@ -211,7 +345,10 @@ theorem ce_extendedBy : ExtendedBy Rg.ce1 ceRule (Rg.fill Rg.ce1Types 0 [(0, 1)]
   · show DateInGrammar Rg.ce1End
     unfold DateInGrammar Rg.ce1End; decide
 
-theorem lookup_follows_rule_counterexample : ¬ lookup_follows_rule_statement := by
+/-- the first wording is false: nothing ties `y0` to the last recorded transition, so all 402
+tabulated years can lie before it; then nothing is generated and `BreakTime` maps every later
+instant back before the first entry, i.e. to the default type -/
+theorem first_wording_false : ¬ lookup_follows_rule_first_wording := by
   intro hst
   obtain ⟨k, hk, ha⟩ := hst Rg.ce1 ceRule (Rg.fill Rg.ce1Types 0 [(0, 1)]) 1000 2 1 0 1000000000
     Rg.ce1_wf Rg.ce1_cols ce_extendedBy (by decide)
